@@ -9,6 +9,7 @@ import (
 	"strconv"
 	"strings"
 	"unicode/utf8"
+	"unsafe"
 
 	"github.com/corazawaf/coraza/v3/experimental/plugins/plugintypes"
 	"github.com/corazawaf/coraza/v3/internal/verif/probe"
@@ -71,6 +72,19 @@ func newChecker(name string, f plugintypes.Transformation, s sink) *checker {
 		k.idempotent = true
 	}
 	return k
+}
+
+// heapString returns a copy of b that lives in writable heap memory of its
+// own (string(b) serves one-byte strings from a read-only table), so that a
+// transformation writing through an unsafe cast modifies something observable
+// instead of faulting.
+func heapString(b []byte) string {
+	if len(b) == 0 {
+		return ""
+	}
+	c := make([]byte, len(b), len(b)+1)
+	copy(c, b)
+	return unsafe.String(&c[0], len(c))
 }
 
 func asciiFold(in string, lo, hi byte, delta int) (string, bool) {
@@ -160,7 +174,7 @@ func flagSignature(in, out string) string {
 // eval judges one input. master is owned by the generator and is the private copy.
 func (k *checker) eval(master []byte) {
 	k.n++
-	in := string(master) // fresh heap copy handed to the transformation
+	in := heapString(master) // fresh heap copy handed to the transformation
 	out, ch, err, pan := k.call(k.f, in)
 	if pan != "" {
 		k.violation("panic:"+digits.ReplaceAllString(pan, "N"), "panics on input "+q(string(master))+": "+pan, direct(k.name, master))
@@ -239,8 +253,12 @@ func (k *checker) eval(master []byte) {
 	}
 
 	if k.inverse != nil {
-		back, _, derr, pan := k.call(k.inverse, out)
+		arg := heapString([]byte(out))
+		back, _, derr, pan := k.call(k.inverse, arg)
 		switch {
+		case pan == "" && arg != out:
+			k.sink.Violation(k.inverseName+":input-modified", fmt.Sprintf("%s: the input string was modified by the call: passed %s, afterwards it reads %s",
+				k.inverseName, q(out), q(arg)), direct(k.inverseName, []byte(out)))
 		case pan != "":
 			k.sink.Violation(k.inverseName+":panic:"+digits.ReplaceAllString(pan, "N"), k.inverseName+" panics on "+q(out)+": "+pan, direct(k.inverseName, []byte(out)))
 		case derr != nil || back != in:
@@ -258,8 +276,11 @@ func (k *checker) eval(master []byte) {
 		}
 	}
 	if k.idempotent {
-		again, _, ierr, pan := k.call(k.f, out)
+		arg := heapString([]byte(out))
+		again, _, ierr, pan := k.call(k.f, arg)
 		switch {
+		case pan == "" && arg != out:
+			k.violation("input-modified", fmt.Sprintf("the input string was modified by the call: passed %s, afterwards it reads %s", q(out), q(arg)), direct(k.name, []byte(out)))
 		case pan != "":
 			k.violation("panic:"+digits.ReplaceAllString(pan, "N"), "panics on input "+q(out)+": "+pan, direct(k.name, []byte(out)))
 		case ierr != nil || again != out:
